@@ -477,6 +477,7 @@ def run_history(case, rec):
                     except Inconclusive:
                         pass
                 cur_fields = ad.fields(simu)
+                cur_results = ad.results(simu)  # results of the current state (history-dependent ones included) before it is saved
                 try:
                     simu.Save(folder)
                 except AttributeError as e:
@@ -491,6 +492,13 @@ def run_history(case, rec):
                 for g0, g1 in zip(simu.mesh.dict_groupElem.values(), loaded.mesh.dict_groupElem.values()):
                     rec.require(sorted(g0.nodeTags) == sorted(g1.nodeTags), "load_tags", "Load_Simu: node tags differ", **sig)
                 _equal_fields(rec, ad.fields(loaded), cur_fields, "load_fields", "Load_Simu: current fields", sig)
+                # the loaded simulation stands where the saved one stood: same results of the current state, internal variables
+                # (history field, committed state) included - before any iteration is restored
+                res_loaded = ad.results(loaded)
+                for nm, exp in cur_results.items():
+                    if nm in res_loaded and np.shape(res_loaded[nm]) == np.shape(exp):
+                        rec.close(res_loaded[nm] - exp, float(np.abs(exp).max()) + 1e-9, 1e-10, "load_current_results",
+                                  f"Load_Simu: Result('{nm}') of the current state differs from the one of the simulation that was saved", **sig)
                 for j, S in enumerate(snaps):
                     r = loaded.Get_results(j)
                     _equal_fields(rec, r, _stored(S, r, kind), "load_history",
